@@ -30,6 +30,11 @@ type Plan struct {
 	Script  Script // optional directed prefix
 	// PriceEvery: a price round every n blocks on average (random part).
 	PriceEvery int
+	// CrashEvery: every n blocks on average ALL collateral prices drop to 30 % in one block, so that one begin
+	// block liquidates the remaining CDPs of every type (0 = never).
+	CrashEvery int
+	// Focus is passed to the generator (see Gen.Focus).
+	Focus string
 }
 
 // Hooks lets a check observe the leader while the history is produced.
@@ -90,6 +95,7 @@ func Produce(plan Plan, hooks Hooks) *History {
 	}
 	rng := cm.NewRng(plan.Seed)
 	g := NewGen(p, rng, leader, plan.Cfg)
+	g.Focus = plan.Focus
 	now := GenTime
 	height := int64(0)
 	scriptDone := plan.Script == nil
@@ -184,6 +190,19 @@ func Produce(plan Plan, hooks Hooks) *History {
 							deliver(spec)
 						}
 					}
+				}
+				if plan.CrashEvery > 0 && rng.Intn(plan.CrashEvery) == 0 {
+					for _, a := range Assets {
+						if a.Denom == "usdx" {
+							continue
+						}
+						for _, spec := range g.priceRound(leader.Ctx(hdr), a.Denom, 300, 40*24*time.Hour) {
+							if res.Panic == "" {
+								deliver(spec)
+							}
+						}
+					}
+					h.Stats["market-crash"]++
 				}
 				n := 0
 				if plan.MaxTxs > 0 {
